@@ -644,6 +644,18 @@ class BzrUploader:
                         self.outf.write(f"Ignoring {change.path[0]}\n")
                         self.outf.write(f"Ignoring {change.path[1]}\n")
                     continue
+                if change.kind[0] != change.kind[1] or (
+                    change.kind[1] == "symlink" and change.changed_content
+                ):
+                    # Not a plain rename: the remote object cannot be reused
+                    # (a kind change, or a symlink that points elsewhere now).
+                    # Remove it and upload the new path like an addition.
+                    if change.kind[0] == "directory":
+                        self.delete_remote_dir_maybe(change.path[0])
+                    else:
+                        self.delete_remote_file(change.path[0])
+                    renamed_from_ignored.append(change)
+                    continue
                 if change.kind == ("file", "file") and (
                     change.changed_content
                     or change.executable[0] != change.executable[1]
